@@ -8,7 +8,9 @@ This wrapper makes the predecessor a dimension of the space:
 
     alphabet   K cases of the wrapped sub-check: a few base cases spread over its space, for each base the cases that
                differ from it in exactly ONE field (same string / other context, same context / other string, ... -
-               the pairs a key "keyed on too little" confuses), and a few far-away cases
+               the pairs a key "keyed on too little" confuses), and a few far-away cases; plus the cases the wrapped
+               sub-check nominates itself (`crosstalk_cases()`: inputs that agree in what a plausible key would hold
+               and differ in what it would leave out; they need not belong to the sub-check's own space)
     space      all K*K ordered pairs (first, second), the diagonal included (the same case twice)
     execution  run(first); run(second) in the same process, nothing reset in between
     oracle     (a) the wrapped sub-check's own oracle on the second case (reference model / differential, unchanged);
@@ -17,7 +19,11 @@ This wrapper makes the predecessor a dimension of the space:
 
 Only cases whose own run is clean are selected, so a discrepancy here is a dependence on the predecessor (what fails
 on its own is the wrapped sub-check's business, known findings included)."""
-from mc.core import Outcome, SubCheck, run_case
+import copy
+import os
+import pickle
+
+from mc.core import Outcome, SubCheck, h64, run_case
 
 OFFSETS = list(range(1, 41))
 _o = 40.0
@@ -70,6 +76,35 @@ def select(inner, want, seed=0, nbases=3, per_field=3):
     return picked
 
 
+def solo(inner, case):
+    """(clean, digest) of one case run on its own, in a child forked for it: the selecting process itself never runs the
+    library, so neither the selection nor the workers forked later inherit anything from an earlier candidate"""
+    r, w = os.pipe()
+    pid = os.fork()
+    if pid == 0:
+        code = 0
+        try:
+            os.close(r)
+            o1 = run_case(inner, case)
+            d1 = h64(repr(o1.outcome))
+            o2 = run_case(inner, copy.deepcopy(case))
+            res = (not o1.disc, d1 if d1 == h64(repr(o2.outcome)) else None)
+            with os.fdopen(w, "wb") as f:
+                f.write(pickle.dumps(res))
+        except BaseException:  # noqa
+            code = 1
+        finally:
+            os._exit(code)
+    os.close(w)
+    with os.fdopen(r, "rb") as f:
+        data = f.read()
+    os.waitpid(pid, 0)
+    try:
+        return pickle.loads(data)
+    except Exception:  # noqa
+        return (False, None)
+
+
 class CrossTalk(SubCheck):
     single_outcome_ok = True
 
@@ -79,40 +114,47 @@ class CrossTalk(SubCheck):
         want = 56 if tier == "thorough" else 24
         if getattr(inner, "case_cpu_limit", None):
             self.case_cpu_limit = 2 * inner.case_cpu_limit
-        cand = select(inner, want, seed)
-        self.sel, self.solo = [], []
-        for i in cand:
-            if len(self.sel) >= want:
+        extra = list(inner.crosstalk_cases()) if hasattr(inner, "crosstalk_cases") else []
+        cand = [("x", c) for c in extra] + [(i, None) for i in select(inner, want, seed)]
+        self.sel, self.solo, self.explicit = [], [], []
+        for i, c in cand:
+            if len(self.sel) >= want + len(extra):
                 break
-            c = inner.case(i)
-            o1 = run_case(inner, c)
-            if o1.disc:
+            c = inner.case(i) if c is None else c
+            clean, digest = solo(inner, c)
+            if not clean:
                 continue        # not clean on its own: the wrapped sub-check reports it (or it is a known finding)
-            o2 = run_case(inner, inner.case(i))
-            self.sel.append(i)
-            self.solo.append(repr(o1.outcome) if repr(o1.outcome) == repr(o2.outcome) else None)
+            self.sel.append(i if i != "x" else -1 - len(self.explicit))
+            if i == "x":
+                self.explicit.append(c)
+            self.solo.append(digest)
         n = len(self.sel)
-        self.bounds = dict(wrapped=inner.name, selected_cases=n, ordered_pairs=n * n,
-                           selection="bases spread over the space, their one-field neighbours, far-away cases; clean on their own")
+        self.bounds = dict(wrapped=inner.name, selected_cases=n, nominated_cases=len(self.explicit), ordered_pairs=n * n,
+                           selection="nominated colliding cases, bases spread over the space, their one-field neighbours, "
+                                     "far-away cases; clean on their own")
 
     def size(self):
         return len(self.sel) ** 2
 
+    def member(self, idx):
+        """alphabet member by its stored index: >= 0 a case of the wrapped space, < 0 a nominated case"""
+        return copy.deepcopy(self.explicit[-1 - idx]) if idx < 0 else self.inner.case(idx)
+
     def case(self, k):
         i, j = divmod(k, len(self.sel))
         return dict(first_index=self.sel[i], second_index=self.sel[j], j=j,
-                    first=self.inner.case(self.sel[i]), second=self.inner.case(self.sel[j]))
+                    first=self.member(self.sel[i]), second=self.member(self.sel[j]))
 
     def case_from_json(self, rec):
         j = self.sel.index(rec["second_index"]) if rec["second_index"] in self.sel else None
         return dict(first_index=rec["first_index"], second_index=rec["second_index"], j=j,
-                    first=self.inner.case(rec["first_index"]), second=self.inner.case(rec["second_index"]))
+                    first=self.member(rec["first_index"]), second=self.member(rec["second_index"]))
 
     def run(self, case):
         out = Outcome()
         inner = self.inner
-        inner.run(inner.case(case["first_index"]))
-        o = inner.run(inner.case(case["second_index"]))
+        inner.run(self.member(case["first_index"]))
+        o = inner.run(self.member(case["second_index"]))
         out.traces = 2
         out.transitions = 1
         out.nontrivial.append((case["first_index"], case["second_index"]))
@@ -121,9 +163,9 @@ class CrossTalk(SubCheck):
             out.fail("after case %d of %s: %s" % (case["first_index"], inner.name, d["message"]), d["expected"], d["observed"],
                      kind="after", inner_kind=d["tags"].get("kind"))
         solo = self.solo[case["j"]] if case.get("j") is not None else None
-        if not o.disc and solo is not None and repr(o.outcome) != solo:
+        if not o.disc and solo is not None and h64(repr(o.outcome)) != solo:
             out.fail("case %d of %s behaves differently after case %d than on its own" % (case["second_index"], inner.name, case["first_index"]),
-                     solo[:300], repr(o.outcome)[:300], kind="after-digest")
+                     None, repr(o.outcome)[:300], kind="after-digest")
         return out
 
 
